@@ -21,6 +21,18 @@ class QuietLog:
         raise SystemExit(exit_code)
 
 
+def debug_log():
+    """
+    The real ConsolePrinter with --debug on (its output is discarded by the
+    caller): debug statements execute, format their arguments, and must not
+    change what the library does.
+    """
+    from types import SimpleNamespace
+    from yamlpath.wrappers import ConsolePrinter
+    return ConsolePrinter(SimpleNamespace(quiet=False, verbose=True,
+                                          debug=True))
+
+
 def _literal(text):
     # Parsers treats the exact source "-" as "read standard input" even for
     # literal data; a (torn) file holding just "-" must not reach that branch
